@@ -218,7 +218,13 @@ claim("C24",
       "surviving queue entries after delete() is not stated.")
 
 claim("C23",
-      "Three of the statement's conjuncts are decided, for every step set: (1) event connectivity - "
+      "Four of the statement's conjuncts are decided, for every step set: (0) the three graph checks of "
+      "validate_graph GIVEN the step graph (build_step_graph and its depth-first searches are trusted): the "
+      "reachability error lists exactly the steps that are not forward-reachable and not opted out, the dead-end error "
+      "exactly the event-producing steps that cannot reach an output event and are not opted out, a terminal-event error "
+      "is reported iff some event type has no consuming step and is not an output event; each check is silent exactly "
+      "when it is skipped for the workflow or nothing qualifies, and one check's per-step opt-outs do not leak into "
+      "another; (1) event connectivity - "
       "_validate_event_connectivity raises WorkflowValidationError only when some step consumes a StopEvent (sub)class, "
       "or a consumed event is neither produced nor a boundary event, or a produced event is neither consumed nor an "
       "output event, and returns only when none of these holds; (2) the human-in-the-loop flag it returns is true iff "
@@ -226,10 +232,10 @@ claim("C23",
       "3cd0ed0: the flag ignored subclasses); (3) @catch_error consistency - validate_catch_error_handlers returns no "
       "error iff at most one wildcard exists and every scoped target is a known non-handler step claimed exactly once, "
       "and _collect_catch_error_handlers raises or returns tables that agree with it.",
-      "NOT covered: exactly-one StartEvent / StopEvent type (_ensure_start_event_class / _ensure_stop_event_class), "
-      "reachability and dead-end checks (graph search over a str|type node set needs a transitive-closure argument "
-      "that was not built) and the per-step / per-workflow skip options. This check must not be read as a proof of all "
-      "of C23.",
+      "NOT covered: exactly-one StartEvent / StopEvent type (_ensure_start_event_class / _ensure_stop_event_class) and "
+      "the graph construction itself: build_step_graph / _dfs are trusted (that the two sets ARE the reachable sets "
+      "needs a transitive-closure argument that was not built); the order of names inside an error is left open "
+      "(sorted() is modelled as a permutation). This check must not be read as a proof of all of C23.",
       category="other")
 
 claim("C16",
